@@ -220,11 +220,37 @@ def run(chk, tier):
     # a Dublin/IPv6 round starts at s < initial + BUFFER_SIZE (R5) and, being UDP, issues one sequence per TTL under
     # ttl ≤ max_ttl ≤ MAX_TTL (C06.R1, R4): offset = sequence − initial ≤ (BUFFER_SIZE − 1) + MAX_TTL
     worst = (mlen or 10 ** 6) + (BS - 1) + MAXTTL
-    if MAXBUF is not None and worst <= MAXBUF:
-        chk.ok('R6', 'payload-bound', 'MAGIC(%s) + (BUFFER_SIZE − 1) + MAX_TTL = %d ≤ MAX_UDP_PAYLOAD_BUF = %d' % (mlen, worst, MAXBUF))
+    # proved at the site itself (not through a named constant): every slicing / copy / arithmetic site of Ipv6::dispatch_udp_probe_raw is
+    # discharged by the range prover under 0 ≤ probe.sequence − initial_sequence ≤ (BUFFER_SIZE − 1) + MAX_TTL
+    from ..vra import RangeEngine, Lin
+    fd = prog.find(r'net::ipv6::Ipv6::dispatch_udp_probe_raw$')
+    chk.fn_seen(fd['path'])
+
+    def inv6(P):
+        out = []
+        seqs = [n for n in P.atoms if re.search(r'probe\.sequence(\.0)?$', n)]
+        inits = [n for n in P.atoms if re.search(r'initial_sequence(\.0)?$', n)]
+        for s_ in seqs:
+            for i_ in inits:
+                out.append(Lin(0, {s_: 1, i_: -1}))
+                out.append(Lin(BS - 1 + MAXTTL, {s_: -1, i_: 1}))
+        return out
+    e6 = RangeEngine(prog, inline_depth=2)
+    e6.invariants = [inv6]
+    st6 = St()
+    args6 = [e6.sym_ref(st6, fd['locals'][i]['name'] or 'a%d' % i) for i in range(1, fd['argc'] + 1)]
+    e6.run(fd, args6, st6)
+    sites = [(k_, d_, lst) for (p_, k_, d_, b_), lst in e6.evals.items() if p_ == fd['path'] and k_ in ('slice-index', 'BoundsCheck', 'copy_from_slice', 'Overflow:Sub', 'Overflow:Add')]
+    bad6 = [(k_, d_, [x for x in lst if not x[1]][0]) for k_, d_, lst in sites if any(not x[1] for x in lst)]
+    n_slices = len([1 for k_, d_, lst in sites if k_ == 'slice-index'])
+    if n_slices >= 2 and not bad6:
+        chk.ok('R6', 'payload-bound', 'all %d buffer sites of dispatch_udp_probe_raw proved for offsets up to (BUFFER_SIZE − 1) + MAX_TTL = %d (payload ≤ %d octets)' % (len(sites), BS - 1 + MAXTTL, worst))
+    elif bad6:
+        k_, d_, w_ = bad6[0]
+        chk.fail('R6', 'payload-bound', '%s:%s' % (fd['span']['file'], w_[3]), 'Dublin/IPv6: a round may run up to sequence offset %d past the initial sequence (payload %d octets), but %s (%s) in dispatch_udp_probe_raw is only safe for less: %s' % (
+            BS - 1 + MAXTTL, worst, k_, d_, w_[2][:200]), key='R6|payload-bound')
     else:
-        chk.fail('R6', 'payload-bound', 'crates/trippy-core/src/net/ipv6.rs', 'Dublin/IPv6 payload length can reach %d > MAX_UDP_PAYLOAD_BUF=%s' % (worst, MAXBUF),
-                 key='R6|payload-bound')
+        chk.fail('R6', 'payload-bound', fn_loc(fd), 'dispatch_udp_probe_raw: the payload buffer sites were not found (%d slice sites)' % n_slices, key='R6|payload-bound')
 
     # ---- R7: two-round separation ------------------------------------------------------------------------
     chk.rule('R7', 'a sequence number used in the immediately preceding round is never valid in the current one', floor=2)
